@@ -217,6 +217,56 @@ def decode_code(code):
 
 
 # ---------------------------------------------------------------------------
+# writers (used for the patched modules of the synth family): the format of
+# docs/ISA.md as the *reader* side documents it
+
+def write_literals(lits):
+    out = bytearray()
+    for t in lits:
+        b = t.encode('cp437')
+        out += struct.pack('>H', len(b)) + b
+    return bytes(out)
+
+
+def write_data(parts):
+    out = bytearray(struct.pack('>H', len(parts)))
+    for part in parts:
+        out += struct.pack('>H', len(part))
+        for it in part:
+            if it is EMPTY:
+                out += struct.pack('>h', -1)
+            else:
+                b = it.encode('cp437')
+                out += struct.pack('>h', len(b)) + b
+    return bytes(out)
+
+
+def join_sections(secs, order):
+    return b''.join(bytes([sid]) + struct.pack('>I', len(secs[sid])) + secs[sid] for sid in order)
+
+
+def patch_module(binary, literals=None, push_index=None, data=None, n_global_cells=None):
+    """rewrite sections of a compiled module; push_index: new operand of the
+    only push$ of the code section"""
+    secs, order = split_sections(binary)
+    if literals is not None:
+        secs[1] = write_literals(literals)
+    if data is not None:
+        secs[2] = write_data(data)
+    if n_global_cells is not None:
+        secs[3] = struct.pack('>I', n_global_cells)
+    if push_index is not None:
+        code, err = decode_code(secs[4])
+        at = [a for a, mn, _ in code if mn == 'push$']
+        if err or len(at) != 1:
+            raise HarnessOutOfDate('base program of the synth family does not have exactly one push$')
+        c = bytearray(secs[4])
+        c[at[0] + 1:at[0] + 3] = struct.pack('>H', push_index)
+        secs[4] = bytes(c)
+    return join_sections(secs, order)
+
+
+# ---------------------------------------------------------------------------
 # L: the listing
 
 _SECTION_NAMES = ('.types', '.literals', '.data', '.globals', '.routines',
@@ -481,6 +531,8 @@ def source_data(src):
                     if line[j] == '"':
                         q = not q
                     j += 1
+                if '\t' in line[m.end():j]:
+                    return None          # the parser expands tabs before the compiler sees the text (not C09's business)
                 toks = tokenize_data(line[m.end():j])
                 if toks is None:
                     return None
